@@ -545,11 +545,19 @@ def _async_lazy_harnesses(prop):
         ("and_then_block", "try_join_async", "Result<u8, u8>",
          "gate(0, code(K_POLL, 0, 0, 0), Ok::<u8, u8>(1)), and_then => { ev(code(K_HANDLER, 0, 0, 1)); |a: u8| core::future::ready(Ok::<u8, u8>(a + 5)) }", "Ok(6)"),
     ]
+    # the smallest shapes: ONE branch, ONE step, no handler (nothing to join, transpose or handle) - still nothing runs early
+    progs += [
+        ("single_bare", "join_async", "u8", "tag(code(K_INIT, 0, 0, 0), gate(0, code(K_POLL, 0, 0, 0), 1u8))", "1"),
+        ("single_pipeline", "join_async", "u8", "tag(code(K_INIT, 0, 0, 0), gate(0, code(K_POLL, 0, 0, 0), 1u8)) |> { ev(code(K_CAP, 0, 0, 1)); |x: u8| x + 1 }", "2"),
+        ("single_bare_try", "try_join_async", "Result<u8, u8>", "tag(code(K_INIT, 0, 0, 0), gate(0, code(K_POLL, 0, 0, 0), Ok::<u8, u8>(1)))", "Ok(1)"),
+        ("single_two_steps", "join_async", "u8", "tag(code(K_INIT, 0, 0, 0), gate(0, code(K_POLL, 0, 0, 0), 1u8)) ~|> { ev(code(K_CAP, 0, 1, 1)); |x: u8| x + 1 }", "2"),
+    ]
     for (name, mac, rty, body, exp) in progs:
         b = "    let fut = %s! { %s };\n" % (mac, body)
         b += "    assert!(tlen() == 0, \"C09: something was evaluated before the first poll\");\n"
         b += "    let (out, polls) = run(fut, 1);\n    assert!(out.is_some());\n    let r: %s = out.unwrap();\n    assert!(r == %s);\n" % (rty, exp)
-        b += "    assert!(tlen_kind(K_HANDLER) == 1);\n"
+        if "_block" in name:
+            b += "    assert!(tlen_kind(K_HANDLER) == 1);\n"
         hn = "%s_lazy_%s" % (prop.lower(), name)
         out.append(Harness(hn, harness_fn(hn, b, unwind=TMAX + 2), "%s! { %s }" % (mac, body), note="laziness incl. block handler / block operands"))
     return out
@@ -1070,11 +1078,16 @@ def fam_capture(prop, tier):
             out.append(_capture_harness(prop, ds, rot, "join"))
     for rot in (0, 3):
         out.append(_capture_harness(prop, (2, 2), rot, "try_join"))
+    # the same grids with every branch named
+    for mac, ds, rot in [("join", (2, 2), 1), ("join", (1, 2), 4), ("try_join", (2, 1), 2)]:
+        out.append(_capture_harness(prop, ds, rot, mac, named=True))
     out += _capture_special(prop)
     return out
 
 
-def _capture_harness(prop, ds, rot, mac):
+def _capture_harness(prop, ds, rot, mac, named=False):
+    """named=True: every branch is named (`let n{i} = { .. } ..`, odd ones `let mut`): naming a branch changes nothing
+    about where its block initial value and its block operands are evaluated"""
     n = len(ds)
     b = ""
     for i in range(n):
@@ -1085,7 +1098,7 @@ def _capture_harness(prop, ds, rot, mac):
     for i in range(n):
         # initial value is a block too (hoisted like an operand)
         init_body = "Some(a%d)" % i
-        t = cap(i, 0, 0, 0, init_body)
+        t = ("let %sn%d = " % ("mut " if i % 2 else "", i) if named else "") + cap(i, 0, 0, 0, init_body)
         steps.setdefault((0, i), []).append(("@init@", [cap(i, 0, 0, 0, init_body)], (i, 0, 0)))
         nev += 1
         for s in range(ds[i]):
@@ -1134,7 +1147,7 @@ def _capture_harness(prop, ds, rot, mac):
         b += "        %s\n    })();\n" % tup("v%d" % i for i in range(n))
     b += "    assert!(r == exp, \"value differs from the documented call with the block operands evaluated once, left to right\");\n"
     b += trace_eq(nev)
-    hn = "%s_cap_%s_%s_r%d" % (prop.lower(), mac, pname(ds), rot)
+    hn = "%s_cap_%s_%s_r%d%s" % (prop.lower(), mac, pname(ds), rot, "_named" if named else "")
     return Harness(hn, harness_fn(hn, b), prog, note="block operands on every action; profile %s; operator rotation %d" % (ds, rot))
 
 
@@ -1325,6 +1338,22 @@ def _let_macro_param_harnesses(prop):
         b += "    assert!(r == exp, \"C12: a name passed through a macro_rules! parameter did not expose its branch's latest step result\");\n"
         hn = "%s_let_macro_param_%s" % (prop.lower(), mac)
         out.append(Harness(hn, harness_fn(hn, b), "wrapped!(first, a) => %s! { let $n = .. }" % mac, note="name passed through a macro_rules! parameter"))
+    return out
+
+
+def _let_mut_single_step_harnesses(prop):
+    """`let mut name` on a branch with ONE step: the name stays a mutable binding for the captures of the other branches'
+    later steps (they may `take()` it, push to it, reassign it)"""
+    out = []
+    for mac, rty, exp in [("join", "(Option<u8>, Option<u8>)", "(Some(9), Some(a.wrapping_add(1).wrapping_add(9)))"),
+                          ("try_join", "Option<(u8, u8)>", "Some((9, a.wrapping_add(1).wrapping_add(9)))")]:
+        # (the final tuple is built from the NAMES, so the reassignment in the last capture is what comes out for branch 0)
+        b = "    let a: u8 = kani::any();\n"
+        prog = ("%s! { let mut first = Some(a), Some(1u8) ~|> { let t: u8 = first.take().unwrap_or(77); move |x: u8| x.wrapping_add(t) } "
+                "~|> { let seen: bool = first.is_none(); first = Some(9); move |x: u8| if seen { x.wrapping_add(first.unwrap_or(0)) } else { 0 } } }") % mac
+        b += "    let r: %s = %s;\n    assert!(r == %s, \"C12: a `let mut` name of a one-step branch was not a mutable binding in later captures\");\n" % (rty, prog, exp)
+        hn = "%s_let_mut_single_step_%s" % (prop.lower(), mac)
+        out.append(Harness(hn, harness_fn(hn, b), prog, note="let mut on a one-step branch, mutated by later captures of another branch"))
     return out
 
 
@@ -1543,7 +1572,7 @@ def _transpose_harness(prop, ds):
 
 
 # + both operands of fold / try_fold as blocks: the captures that read names are block operands, every one of them must be defined
-FAMILIES["C12"] = [fam_let, lambda p, t: _let_loose_harnesses(p), lambda p, t: _let_macro_param_harnesses(p), lambda p, t: [h for h in _capture_special(p) if "fold2" in h.name]]
+FAMILIES["C12"] = [fam_let, lambda p, t: _let_loose_harnesses(p), lambda p, t: _let_macro_param_harnesses(p), lambda p, t: _let_mut_single_step_harnesses(p), lambda p, t: [h for h in _capture_special(p) if "fold2" in h.name]]
 FAMILIES["C13"] = [fam_handler, lambda p, t: _async_lazy_harnesses(p)]
 FAMILIES["C09"] = [fam_async, lambda p, t: _async_lazy_harnesses(p)]
 FAMILIES["C16"] = [fam_options]
